@@ -178,6 +178,11 @@ class StmtMixin:
             if note not in self.notes:
                 self.notes.append(note)
             return [(st, self.NORMAL, None)]
+        if getattr(s, "_is_ghost", False) and isinstance(s.value, ast.Call) and self.callname(s.value.func) == "recut":
+            if not self.loop_stack:
+                raise Unsupported("recut() outside a loop")
+            self.loop_stack[-1](st, s.lineno)
+            return [(st, self.NORMAL, None)]
         if getattr(s, "_is_ghost", False) and isinstance(s.value, ast.Call) and self.callname(s.value.func) == "assert_":
             g = self.spec_bool_node(st, s.value.args[0])
             self.ob(st, f"L{s.lineno}:ghost-assert", "lemma", g, s.lineno, ast.unparse(s.value.args[0]))
@@ -471,7 +476,13 @@ class StmtMixin:
         if isinstance(n, int):
             t = self.ref_term(st, view)
             for k in range(n):
-                t = z3.Store(t, k, self.to_kind(at(k), kind))
+                val = self.to_kind(at(k), kind)
+                if self.name_stores and kind == "float" and is_z3(val) and val.num_args() > 0 \
+                        and val.decl().kind() != z3.Z3_OP_SELECT:
+                    c_ = z3.Const(fresh_name("v"), val.sort())
+                    st.assume(c_ == val)
+                    val = c_
+                t = z3.Store(t, k, val)
             self._write_view(st, view, t)
             return
         new = z3.Const(fresh_name("row"), array_sort(self.mode, kind, 1))
@@ -529,7 +540,7 @@ class StmtMixin:
                 visit_target(n.target)
             elif isinstance(n, ast.Call):
                 nm = eng.callname(n.func)
-                cname = eng.contract.callee_alias.get(nm, nm)
+                cname = eng.resolve_callee(nm)
                 if cname in eng.registry:
                     callee = eng.registry[cname]
                     for a in callee.assigns:
@@ -698,6 +709,8 @@ class StmtMixin:
             hi_z = self.to_int(hi)
         tag = f"L{ln}:loop{ordinal}"
 
+        inv_ids = {}  # z3 ast id of an assumed invariant formula -> invariant index
+
         def eval_invs(state, kind, cval):
             if counter is not None:
                 state.vars[counter] = cval
@@ -711,8 +724,19 @@ class StmtMixin:
                 g = self.spec_bool(state, clause)
                 if kind == "assume":
                     state.assume(g)
+                    if is_z3(g):
+                        inv_ids[g.get_id()] = k
                 else:
-                    self.ob(state, f"{tag}:{kind}[{k}]", kind, g, ln, clause)
+                    uses = spec.uses.get(k) if (spec and kind == "inv-pres") else None
+                    if uses is not None:
+                        # modular preservation proof: only the listed invariants are assumed (fewer assumptions: sound)
+                        keep = set(uses) | {k}
+                        saved_pc = state.pc
+                        state.pc = [f for f in saved_pc if inv_ids.get(f.get_id(), None) is None or inv_ids[f.get_id()] in keep]
+                        self.ob(state, f"{tag}:{kind}[{k}]", kind, g, ln, clause)
+                        state.pc = saved_pc
+                    else:
+                        self.ob(state, f"{tag}:{kind}[{k}]", kind, g, ln, clause)
 
         # ghost initialisation
         if spec:
@@ -773,6 +797,38 @@ class StmtMixin:
         variant0 = None
         if spec and spec.variant:
             variant0 = self.to_int(self.ev(body_st, ast.parse(spec.variant, mode="eval").body, True))
+        def recut(state, lineno, _names=frozenset(names), _locs=frozenset(locs), _k=(None if is_while else k)):
+            """mid-body cut: prove the loop invariants, forget the modified state, re-assume them"""
+            chk = state.fork()
+            saved_k = chk.vars.get(counter) if counter else None
+            if counter is not None:
+                chk.vars[counter] = _k
+            for kx, clause in enumerate(invs):
+                self.ob(chk, f"L{lineno}:loop{ordinal}:recut[{kx}]", "inv-pres", self.spec_bool(chk, clause), lineno, clause)
+            keep_targets = set()
+            if not is_while:
+                for t_ in ast.walk(s.target):
+                    if isinstance(t_, ast.Name):
+                        keep_targets.add(t_.id)
+            before_ = self.state_symbols(state)
+            # scalars keep their (precise) values of this iteration; only array contents are forgotten
+            self.havoc(state, set(), _locs)
+            dead_ = before_ - self.state_symbols(state)
+            if dead_:
+                state.pc = [f for f in state.pc if not (self.formula_symbols(f) & dead_)]
+            if counter is not None:
+                state.vars[counter] = _k
+            for kx, clause in enumerate(invs):
+                g_ = self.spec_bool(state, clause)
+                state.assume(g_)
+                if is_z3(g_):
+                    inv_ids[g_.get_id()] = kx
+            if spec:
+                for clause in spec.assumed:
+                    state.assume(self.spec_bool(state, clause))
+            if counter is not None and saved_k is not None:
+                state.vars[counter] = saved_k
+        self.loop_stack.append(recut)
         if not is_while and plan[0] != "range" and guard is not None:
             skip = body_st.fork()
             g = self.to_bool(guard(k))
@@ -781,6 +837,7 @@ class StmtMixin:
             outs = [(skip, self.NORMAL, None)] + self.exec_block(s.body, body_st)
         else:
             outs = self.exec_block(s.body, body_st)
+        self.loop_stack.pop()
         for cur, flow, val in outs:
             if flow in (self.NORMAL, self.CONTINUE):
                 nxt = None if is_while else k + 1
